@@ -353,11 +353,17 @@ def capture(objs, options: dict, variants=("full",), record_calls=False, jit: di
     irs: list = []
     calls_now: list | None = None
 
+    def exp(s):
+        # the generators also put plain (empty) Python lists into the statement lists they hand to optimize()
+        if isinstance(s, list | tuple):
+            return {"kind": "PyList", "items": [exp(x) for x in s]}
+        return astexport.export_stmt(s)
+
     def rec_optimize(code, rule):
-        before = [astexport.export_stmt(s) for s in code] if calls_now is not None else None   # licm mutates in place
+        before = [exp(s) for s in code] if calls_now is not None else None   # BEFORE the call: licm mutates in place
         out = real_optimize(code, rule)
         if calls_now is not None:
-            calls_now.append({"in": before, "out": [astexport.export_stmt(s) for s in out]})
+            calls_now.append({"in": before, "out": [exp(s) for s in out]})
         return out
 
     def rec_gen(self, domain):
